@@ -124,7 +124,7 @@ PROPS["C04"] = dict(
             "parse_response (Transfer-Encoding removal)", "http::{HeaderName::from_bytes,HeaderValue::from_bytes,HeaderMap::append,StatusCode::from_str} as called"],
     bounds="line readers on ALL byte strings of length 3..6 x byte limit x BufReader capacity 1..8 x segmentation; trim/replace on all strings of length 4/7; "
            "parse_response_head on enumerated concrete head layouts (see harness names) with every segmentation of the head",
-    outside="symbolic header names/values inside parse_response_head (a symbolic byte inside a line makes every later length symbolic for the symbolic executor; head contents are therefore enumerated, not symbolic); heads beyond 64 bytes",
+    outside="repeated fields in wire order (a head with two Set-Cookie fields: 2400 s / 22 GB without a verdict); symbolic header names/values inside parse_response_head (a symbolic byte inside a line makes every later length symbolic for the symbolic executor; head contents are therefore enumerated, not symbolic); heads beyond 64 bytes",
     stubs=["core::slice::memchr::memchr -> naive byte loop", "core::str::from_utf8 -> byte-wise validator", "io::Error::is_interrupted -> false"],
     assumptions=[],
 )
